@@ -755,6 +755,23 @@ def p7(ctx):
             elif st.kind == 'create_trigger':
                 seen.setdefault(('trigger', st.name), e)
     obs = []
+    # nothing ever drops a table or a trigger: Cache.__init__ runs in autocommit, so between a DROP TRIGGER and the
+    # CREATE that follows other connections write rows that no trigger counts
+    from .rules_lock import core_entries
+    drops = []
+    for g in core_entries(ctx):
+        for p in ctx.paths(g, 'plain' if g is init else 'default'):
+            for e in sql_events(p.trace):
+                st = e.d['stmt']
+                if st is not None and st.kind in ('drop_trigger', 'drop_table'):
+                    drops.append(e)
+                elif st is not None and st.kind == 'unknown' and (e.d.get('text') or '').lstrip().upper().startswith('DROP'):
+                    drops.append(e)
+    obs.append(Ob('P7', 'no-table-or-trigger-dropped', not drops,
+                  'a statement drops a table or trigger (%s): connections are in autocommit mode, so until it is '
+                  're-created other clients insert and delete rows that the counters never see' %
+                  ((drops[0].d.get('text') or '')[:50] if drops else ''),
+                  drops[0].fn.loc(drops[0].node) if drops else init.loc()))
     for (kind, name), e in sorted(seen.items()):
         missing = None
         for p in paths:
